@@ -22,6 +22,17 @@ class EByte(KBits):
         return 'E(%s,%d%s)' % (self.src, self.j, ',mask=%#x,val=%#x' % (self.mask, self.val) if self.mask else '')
 
 
+class ELimb:
+    """64-bit limb k (0 = least significant) of the canonical representation of a coordinate (src)"""
+    __slots__ = ('src', 'k')
+
+    def __init__(self, src, k):
+        self.src, self.k = src, k
+
+    def __repr__(self):
+        return 'L(%s,%d)' % (self.src, self.k)
+
+
 class EncRun:
     """from_affine interpreted over provenance bytes: `into_repr().write_be(writer)` writes the 48 bytes of that
     coordinate at the writer's current position (std's Write for &mut [u8] advances the slice), flag bits are or-ed in
@@ -60,11 +71,22 @@ class EncRun:
             fr.storev(dest, ('fq-zero',))
             return True
         if name == 'into_repr' and c.get('trait') == 'ff::PrimeField':
-            fr.storev(dest, ('repr_of', fr.deref_operand(args[0])))
+            # the canonical representation: a unit for write_be, six named limbs for code that walks them
+            src_ = fr.deref_operand(args[0])
+            fr.storev(dest, Agg([Agg([ELimb(src_, k_) for k_ in range(6)])], ('repr_of', freeze(src_), src_)))
+            return True
+        if name == 'to_be_bytes' and len(args) == 1 and isinstance(fr.operand(args[0]), ELimb):
+            # limb k big-endian = bytes (5 - k) * 8 .. + 8 of the 48-byte big-endian representation
+            l_ = fr.operand(args[0])
+            out_ = []
+            for i_ in range(8):
+                j_ = (5 - l_.k) * 8 + i_
+                out_.append(EByte(l_.src, j_, 0xe0, 0) if j_ == 0 else EByte(l_.src, j_))
+            fr.storev(dest, Agg(out_))
             return True
         if name == 'write_be' and c.get('trait') == 'ff::PrimeFieldRepr' and len(args) == 2:
             v = fr.deref_operand(args[0])
-            src = v[1] if isinstance(v, tuple) and v and v[0] == 'repr_of' else ('?', repr(v))
+            src = v[1] if isinstance(v, tuple) and v and v[0] == 'repr_of' else (v.kind[2] if isinstance(v, Agg) and v.kind and v.kind[0] == 'repr_of' else ('?', repr(v)))
             okw = self.write_to(I, fr, args[1], src, 48)
             pth.events.append(('write_be', src, okw, where))
             fr.storev(dest, Opt('none' if okw else 'some', Agg([]), ('write_be',)))
